@@ -213,6 +213,37 @@ def gen_cases(rng, n_pairs, n_setp):
             cases.append(Case('UUP', g, ('GC', els), family=fam, label='unary'))
             polys = [e[1] for e in els if e[0] == 'PG']
             if polys: cases.append(Case('UUP', g, ('MPG', polys), family=fam, label='unary-multipolygon'))
+    # one operand smaller than a grid cell, placed at the ring start vertex / another vertex / on an edge / inside / outside the
+    # other operand, in either argument position: the tiny operand collapses completely (or almost) on the grid
+    for i in range(max(8, n_pairs // 3)):
+        O = L.gen_poly(rng, rng.choice([4, 8, 12]), holes=rng.random() < 0.3)
+        ring = O[1][0]
+        g = float(rng.choice([1, 2, 2, 4]))               # the vertices of O (even integers) are mostly grid points
+        where = rng.choice(['ring-start', 'ring-start', 'vertex', 'edge', 'inside', 'outside'])
+        if where == 'ring-start': c = ring[0]
+        elif where == 'vertex': c = ring[rng.randrange(1, len(ring) - 1)]
+        elif where == 'edge':
+            k = rng.randrange(len(ring) - 1); t = rng.choice([0.5, 0.25, 0.3])
+            c = (ring[k][0] + (ring[k + 1][0] - ring[k][0]) * t, ring[k][1] + (ring[k + 1][1] - ring[k][1]) * t)
+        elif where == 'inside':
+            xs = [p[0] for p in ring]; ys = [p[1] for p in ring]
+            c = (sum(xs[:-1]) / (len(xs) - 1), sum(ys[:-1]) / (len(ys) - 1))
+        else:
+            c = (max(p[0] for p in ring) + 3 * g, max(p[1] for p in ring) + g)
+        off = rng.choice([0.0, 0.0, 0.3, -0.3]) * g
+        c = (c[0] + off, c[1] + (off if rng.random() < 0.5 else 0.0))
+        hs = g * rng.choice([0.05, 0.1, 0.2, 0.45])        # half size: smaller than half a cell
+        T = ('PG', [[(c[0] - hs, c[1] - hs), (c[0] + hs, c[1] - hs), (c[0] + hs, c[1] + hs), (c[0] - hs, c[1] + hs), (c[0] - hs, c[1] - hs)]]
+             if rng.random() < 0.7 else [[(c[0] - hs, c[1] - hs), (c[0] + hs, c[1] - hs), (c[0], c[1] + hs), (c[0] - hs, c[1] - hs)]])
+        fam = 'tiny'
+        if rng.random() < 0.25:
+            f = L.full_precision_map(rng); O2, T2 = L.map_pts(O, f), L.map_pts(T, f)
+            sc = extent_of([O2]) / max(extent_of([O]), 1e-9)
+            O, T, g = O2, T2, g * sc
+            while not resolvable(g, [O, T]): g *= 16
+        for k in OPS:
+            cases.append(Case(k, g, O, T, family=fam, label='tiny-second/' + where))
+            cases.append(Case(k, g, T, O, family=fam, label='tiny-first/' + where))
     for i in range(n_setp):
         full = rng.random() < 0.4
         A = L.gen_geom(rng, None, rng.choice([4, 8, 12]))
@@ -644,6 +675,8 @@ def run(ctx):
             ctx.broken.append(dict(kind='generator', name='distribution', detail='no evaluated call ' + k))
     if nk == 0:
         ctx.broken.append(dict(kind='generator', name='distribution', detail='no KEEP_COLLAPSED case with a fully collapsed element'))
+    if d['family'].get('tiny', 0) == 0:
+        ctx.broken.append(dict(kind='generator', name='distribution', detail='no evaluated case of the tiny-operand family'))
     for k in ('coarse-finer-nondivisor', 'finer-coarser', 'equal'):
         if d['history_kinds'].get(k, 0) == 0:
             ctx.broken.append(dict(kind='generator', name='distribution', detail='no evaluated history of kind ' + k))
